@@ -398,7 +398,7 @@ def lookup_tables(allow):
 
 def world_header(cfgs):
     from deepdiff.serialization import SAFE_TO_IMPORT
-    lines = ["From DD Require Import Base.PyStr Pickle.Vm Pickle.PickleShow.", "Local Open Scope Z_scope."]
+    lines = ["From DD Require Import Base.PyStr Pickle.Vm Pickle.PickleShow Pickle.PickleProofs.", "Local Open Scope Z_scope."]
     for i, (_nm, arg, coq) in enumerate(cfgs):
         allow = effective_allow_py(arg)
         mods, found = lookup_tables(allow)
@@ -1281,6 +1281,31 @@ def fixed_programs(ctx, cfgs):
         copyreg._extension_cache.pop(code_ok, None)
         copyreg.remove_extension(BAD, "boom", code_bad)
         copyreg.remove_extension("builtins", "list", code_ok)
+    # the Coq witness of C15_no_forbidden_resolution_refuted, literally (os.getpid is harmless)
+    import os
+    copyreg.add_extension("os", "getpid", 201)
+    try:
+        wit = [("PROTO", 2), ("EXT1", 201), ("EMPTY_TUPLE",), ("REDUCE",), ("STOP",)]
+        before = real_load(assemble(wit), None)
+        pickle.loads(assemble([("PROTO", 2), ("EXT1", 201), ("STOP",)]))
+        after = real_load(assemble(wit), None)
+        ctx.evaluations += 1
+        reproduced = before["cls"] == "ForbiddenModule" and after["cls"] == "ok" and after["result"] == os.getpid() and not after["calls"]
+        ctx.note("refuted_witness_replayed", {"C15_no_forbidden_resolution_refuted": {
+            "before_unrestricted_load": before["cls"], "after": after["cls"], "find_class_calls_after": after["calls"],
+            "reproduced": reproduced}})
+        if reproduced:
+            ctx.fail({"kind": "ext-cache", "ext": True, "called": [], "witness": "coq", "bytes_hex": assemble(wit).hex(), "config": "none"},
+                     "EXT served from the extension cache called os.getpid without find_class")
+        else:
+            ctx.break_("correspondence", {"name": "refuted-witness", "detail": "the Coq witness of C15_no_forbidden_resolution_refuted "
+                                          "does not reproduce on the implementation any more: the model is out of date",
+                                          "before": before["cls"], "after": after["cls"]})
+        cases.append(("sx_result false (vm_run w_cached prog_cached)", [after["cls"], None, [[m, n] for m, n, r in after["calls"] if r], None],
+                      {"kind": "refuted-witness"}))
+    finally:
+        copyreg._extension_cache.pop(201, None)
+        copyreg.remove_extension("os", "getpid", 201)
     ctx.coq_cases("c15_fixed", world_header(cfgs), cases, shard=100, label="fixed programs")
 
 
@@ -1289,7 +1314,8 @@ def fixed_programs(ctx, cfgs):
 # ---------------------------------------------------------------------------
 
 def _m_ext_cache(case):
-    return case.get("kind") == "ext-cache" and case.get("ext") is True and "boom" in case.get("called", [])
+    return case.get("kind") == "ext-cache" and case.get("ext") is True and (
+        "boom" in case.get("called", []) or case.get("witness") == "coq")
 
 
 MATCHERS = {"C15-EXT-CACHE": _m_ext_cache}
@@ -1304,6 +1330,10 @@ def run(ctx):
         ctx.coq_cases("c15_allowlist", world_header(cfgs),
                       [("SL (sx_sort (map sx_str SAFE_TO_IMPORT))", core.sx_sorted(sorted(SAFE_TO_IMPORT)), {"kind": "allow-list"})],
                       label="SAFE_TO_IMPORT")
+        mods, found = lookup_tables(set(SAFE_TO_IMPORT))
+        ctx.coq_cases("c15_defaultworld", world_header(cfgs),
+                      [("sx_default_world", [core.sx_sorted(mods), core.sx_sorted([[m, n, k] for m, n, k in found])],
+                        {"kind": "default-world"})], label="default world tables")
         decision_part(ctx, cfgs if ctx.thorough else cfgs[:4], max_modules=None if ctx.thorough else 400)
         fixed_programs(ctx, cfgs)
         programs_part(ctx, cfgs, 12000 if ctx.thorough else 1800)
